@@ -144,8 +144,9 @@ func generate(a wh.Args, o *wh.Out) []string {
 	msgs := msgPool()
 	scripts := scriptPool(rs)
 	all := append(append([]string{}, mws...), retryPool...)
+	var rareCfgs []string // configurations of the open finding D17 (InitialInterval > MaxInterval): kept to a small share
 	for _, c := range delayCfgsInitGtMax {
-		all = append(all, "D:"+c)
+		rareCfgs = append(rareCfgs, "D:"+c)
 	}
 
 	// 1. bare handler and every single middleware x every result x every message variant (exhaustive)
@@ -155,18 +156,38 @@ func generate(a wh.Args, o *wh.Out) []string {
 		}
 	}
 	for _, mw := range all {
-		rare := false // configurations of the open finding D17: a sample of the messages is enough
-		for _, c := range delayCfgsInitGtMax {
-			rare = rare || mw == "D:"+c
-		}
 		for _, r := range rs {
-			for i, m := range msgs {
-				if rare && i%6 != 0 {
-					continue
-				}
+			for _, m := range msgs {
 				add(stackReq([]string{mw}, m, r), "stack.depth1."+kindOf(mw))
 			}
 		}
+	}
+	for _, mw := range rareCfgs {
+		for _, r := range rs {
+			for i, m := range msgs {
+				if i%12 == 0 {
+					add(stackReq([]string{mw}, m, r), "stack.init_gt_max")
+				}
+			}
+		}
+	}
+	nRare := 150
+	if a.Thorough() {
+		nRare = 1500
+	}
+	for i := 0; i < nRare; i++ {
+		n := 2 + rng.Intn(2)
+		st := make([]string, n)
+		for {
+			for j := range st {
+				st[j] = all[rng.Intn(len(all))]
+			}
+			st[rng.Intn(n)] = rareCfgs[rng.Intn(len(rareCfgs))]
+			if countRetry(st) <= 1 {
+				break
+			}
+		}
+		add(stackReq(st, msgs[rng.Intn(len(msgs))], scripts[rng.Intn(len(scripts))]), "stack.init_gt_max")
 	}
 	// single middleware x multi-attempt scripts (matters for Retry)
 	for _, mw := range all {
@@ -176,9 +197,9 @@ func generate(a wh.Args, o *wh.Out) []string {
 	}
 
 	// 2. every ordered pair (at most one Retry), scripts and messages drawn per pair
-	perPair := 6
+	perPair := 10
 	if a.Thorough() {
-		perPair = 12
+		perPair = 40
 	}
 	for _, m1 := range all {
 		for _, m2 := range all {
@@ -202,9 +223,9 @@ func generate(a wh.Args, o *wh.Out) []string {
 	}
 
 	// 3. ordered triples: all kinds in every order with Retry at each position, configurations drawn
-	nTriples := 12000
+	nTriples := 30000
 	if a.Thorough() {
-		nTriples = 40000
+		nTriples = 200000
 	}
 	kinds := map[string][]string{}
 	var kindList []string
@@ -216,7 +237,7 @@ func generate(a wh.Args, o *wh.Out) []string {
 		kinds[k] = append(kinds[k], m)
 	}
 	pick := func(k string) string { v := kinds[k]; return v[rng.Intn(len(v))] }
-	// every ordered triple of kinds that contains exactly one Retry: enumerated (3 positions x 10 x 10 kinds)
+	// every ordered triple of kinds with at most one Retry: enumerated
 	for _, k1 := range kindList {
 		for _, k2 := range kindList {
 			for _, k3 := range kindList {
@@ -227,10 +248,14 @@ func generate(a wh.Args, o *wh.Out) []string {
 						ny++
 					}
 				}
-				if ny != 1 {
+				if ny > 1 {
 					continue
 				}
 				st := []string{pick(k1), pick(k2), pick(k3)}
+				if ny == 0 {
+					add(stackReq(st, msgs[rng.Intn(len(msgs))], rs[rng.Intn(len(rs))]), "stack.depth3.kinds_enum")
+					continue
+				}
 				add(stackReq(st, msgs[rng.Intn(len(msgs))], scripts[rng.Intn(len(scripts))]), "stack.depth3.retry_enum")
 				o.Count("stack.with_retry")
 			}
